@@ -958,8 +958,13 @@ class Exec:
             yield from self.call_by_contract(st, f, node, contract, args, kwargs)
             return
         if contract is None and not self.db.is_inline(key):
-            raise NeedsContract(f"call to {key} has no contract and is not marked inline")
-        self.inlined.add(key)
+            # no contract: small helpers are executed from their real source (listed in evidence)
+            size = (node.end_lineno or node.lineno) - node.lineno
+            if size > 40 or len(st.frames) > 12:
+                raise NeedsContract(f"call to {key} has no contract and is too large to inline ({size} lines)")
+            self.inlined.add("auto:" + key)
+        else:
+            self.inlined.add(key)
         yield from self.inline_call(st, f, node, args, kwargs)
 
     def inline_call(self, st, f: FuncRef, node, args, kwargs):
